@@ -368,6 +368,13 @@ pub enum LinkFault {
     },
     /// replace the message entirely
     Replace(Vec<u8>),
+    /// replace the message by prefix + unit x times + suffix (large inputs without large scenarios)
+    Repeat {
+        prefix: Vec<u8>,
+        unit: Vec<u8>,
+        times: u32,
+        suffix: Vec<u8>,
+    },
 }
 
 #[derive(Serialize, Deserialize, Clone, Debug, PartialEq)]
